@@ -79,29 +79,28 @@ class O2JMap(Map[O2JNoteList, O2JHitList, O2JHoldList, O2JBpmList]):
         bpm_ix = -1
         bpm_val = init_bpm
 
-        next_bpm_measure = bpms[0].measure if len(bpms) > 0 else None
         for note_measure in note_measures:
-            if not next_bpm_measure:
-                while note_measure > next_bpm_measure:
-                    bpm_ix += 1
-                    bpm = bpms[bpm_ix]
-                    # Update offset
-                    offset += RAConst.min_to_msec((bpm.measure - measure) * 4 / bpm_val)
-                    bpm.offset = offset
-                    measure = bpm.measure
-                    bpm_val = bpm.bpm
-
-                    # Check if next one is available
-                    if bpm_ix + 1 == len(bpms):
-                        next_bpm_measure = None
-                        break
-                    else:
-                        next_bpm_measure = bpm.measure
+            # Apply every tempo event up to this measure
+            while bpm_ix + 1 < len(bpms) and bpms[bpm_ix + 1].measure <= note_measure:
+                bpm_ix += 1
+                bpm = bpms[bpm_ix]
+                # Update offset
+                offset += RAConst.min_to_msec((bpm.measure - measure) * 4 / bpm_val)
+                bpm.offset = offset
+                measure = bpm.measure
+                bpm_val = bpm.bpm
 
             # We add it into the measure: offset dictionary.
             note_measure_dict[note_measure] = offset + RAConst.min_to_msec(
                 4 * (note_measure - measure) / bpm_val
             )
+
+        # Tempo events after the last note are timed as well
+        for bpm in bpms[bpm_ix + 1 :]:
+            offset += RAConst.min_to_msec((bpm.measure - measure) * 4 / bpm_val)
+            bpm.offset = offset
+            measure = bpm.measure
+            bpm_val = bpm.bpm
 
         # We then assign all the offsets here
         for note in notes:
